@@ -884,6 +884,30 @@ class AProbabilisticAL(Adapter):
 register(AProbabilisticAL())
 
 
+class AProbabilisticALMetric(Adapter):
+    """metric given: the strategy estimates the label density itself with an internal ParzenWindowClassifier (real code on
+    the kernel stub) built from the handed classifier's classes / missing_label, and weights the classifier's
+    probabilities with it"""
+    name = "ProbabilisticAL[metric=rbf]"
+    needs_clf = True
+    product_abstraction = True
+    supports_rows = False
+    slow = True
+    units = ["skactiveml.pool._probabilistic_al:ProbabilisticAL.query",
+             "skactiveml.classifier._parzen_window_classifier:ParzenWindowClassifier.fit",
+             "skactiveml.classifier._parzen_window_classifier:ParzenWindowClassifier.predict_freq"]
+
+    def make(self, seed, sym=True, inputs=None, **kw):
+        return pool().ProbabilisticAL(metric="rbf", metric_dict={"gamma": 0.5}, random_state=seed, **kw)
+
+    def call(self, qs, s, b, sym, table=None, return_utilities=True):
+        return qs.query(s.X, s.y, self.clf(sym, table, s.K), fit_clf=False, candidates=s.cand, batch_size=b,
+                        return_utilities=return_utilities)
+
+
+register(AProbabilisticALMetric())
+
+
 # --------------------------------------------------------------------------
 # DropQuery (dropout masks are draws of the strategy's generator; predictions = argmax of the stub's probabilities)
 # --------------------------------------------------------------------------
